@@ -1034,24 +1034,34 @@ func c02LinearCase(ctx *Ctx, shape int) *report.Violation {
 		// gives 4x for 4x the input (up to ~6x when the larger input falls out
 		// of a cache level, and up to ~8x was seen for readers whose time is
 		// dominated by the harness's own recording buffers on a loaded machine),
-		// quadratic work 16x; the bound is 12x, only above 40 ms, and only if a
-		// second measurement says the same.
+		// quadratic work 16x.
 		tn := 192 << 10
 		if ctx.Tier == "thorough" {
 			tn = 320 << 10
 		}
-		ts, tb := longStream(shape, tn), longStream(shape, 4*tn)
-		t1, t4 := bestCPUTime(ctx, func() { r.run(ts) }), bestCPUTime(ctx, func() { r.run(tb) })
-		slow := func() bool { return t1 > 0 && t4 > 40*time.Millisecond && t4 > 12*t1 }
+		ts, tm, tb := longStream(shape, tn), longStream(shape, 2*tn), longStream(shape, 4*tn)
+		var t1, t2, t4 time.Duration
+		measure := func() {
+			t1, t2, t4 = bestCPUTime(ctx, func() { r.run(ts) }), bestCPUTime(ctx, func() { r.run(tm) }), bestCPUTime(ctx, func() { r.run(tb) })
+		}
+		// three sizes, so that a one-time step (the larger input falling out of
+		// a cache level) is not mistaken for growth: BOTH doublings must cost
+		// more than 3x (linear work: 2x each, quadratic work: 4x each)
+		slow := func() bool { return t1 > 0 && t2 > 0 && t4 > 40*time.Millisecond && t2 > 3*t1 && t4 > 3*t2 }
+		measure()
 		if slow() {
-			// measured again before anything is said
-			t1, t4 = bestCPUTime(ctx, func() { r.run(ts) }), bestCPUTime(ctx, func() { r.run(tb) })
+			measure() // measured again before anything is said
 		}
 		if slow() {
-			return lin(viol("C02", "linear-work", "%s: reading a %d-byte stream costs %v of CPU time, the same shape at %d bytes %v (%.1fx for 4x the input, best of three each; linear work gives about 4x, quadratic work 16x)", r.name, len(ts), t1, len(tb), t4, float64(t4)/float64(t1+1)))
+			return lin(viol("C02", "linear-work", "%s: reading a %d-byte stream costs %v of CPU time, the same shape at %d bytes %v and at %d bytes %v (%.1fx and %.1fx for each doubling of the input, best of three each; linear work gives about 2x per doubling, quadratic work 4x)", r.name, len(ts), t1, len(tm), t2, len(tb), t4, float64(t2)/float64(t1), float64(t4)/float64(t2)))
 		}
 		if ctx.Stats != nil {
 			ctx.Stats.Max("max_cpu_time_growth_x100_for_4x_input", int64(100*float64(t4)/float64(t1+1)))
+			if a, b := float64(t2)/float64(t1+1), float64(t4)/float64(t2+1); a < b {
+				ctx.Stats.Max("max_smaller_doubling_factor_x100", int64(100*a))
+			} else {
+				ctx.Stats.Max("max_smaller_doubling_factor_x100", int64(100*b))
+			}
 		}
 		if ctx.Stats != nil {
 			ctx.Stats.Add("evaluations", 1)
@@ -1087,10 +1097,11 @@ func init() {
 					"files_read":               s.Counters["files_read"],
 					"exhaustive_short_streams": s.Counters["short_streams"],
 					"random_streams":           s.Counters["random_streams"],
-					"linear_work_measurements_(9 shapes x 4 readers at n and 4n bytes)":     s.Counters["linear_work_measurements"],
-					"largest_allocation_growth_for_4x_the_input":                            fmt.Sprintf("%.2fx", float64(s.Counters["max_allocation_growth_x100_for_4x_input"])/100),
-					"largest_stack_growth_while_reading_the_4n_stream_bytes":                s.Counters["max_stack_growth_bytes_at_4n"],
-					"largest_cpu_time_growth_for_4x_the_input_(thread CPU time, best of 3)": fmt.Sprintf("%.2fx", float64(s.Counters["max_cpu_time_growth_x100_for_4x_input"])/100),
+					"linear_work_measurements_(9 shapes x 4 readers at n and 4n bytes)":              s.Counters["linear_work_measurements"],
+					"largest_allocation_growth_for_4x_the_input":                                     fmt.Sprintf("%.2fx", float64(s.Counters["max_allocation_growth_x100_for_4x_input"])/100),
+					"largest_stack_growth_while_reading_the_4n_stream_bytes":                         s.Counters["max_stack_growth_bytes_at_4n"],
+					"largest_smaller_of_the_two_doubling_factors_(bound 3.0; linear 2, quadratic 4)": fmt.Sprintf("%.2fx", float64(s.Counters["max_smaller_doubling_factor_x100"])/100),
+					"largest_cpu_time_growth_for_4x_the_input_(thread CPU time, best of 3)":          fmt.Sprintf("%.2fx", float64(s.Counters["max_cpu_time_growth_x100_for_4x_input"])/100),
 					"prefix_comparisons":  s.Counters["prefix_checks"],
 					"calls_delivered":     s.Counters["calls_delivered"],
 					"raster_ops_recorded": s.Counters["raster_ops"],
